@@ -287,8 +287,8 @@ async def _drive_integration(case: dict[str, Any], out: dict[str, Any]) -> None:
             await status_tx.send(ComponentPoolStatus(working={10 + b for b in e[2]}, uncertain=set()))
         else:
             b, d = e[2], e[3]
-            full = {"cap": d["cap"] if d["cap"] is not None else _m.nan, "soc": d["soc"] if d["soc"] is not None else _m.nan,
-                    "lo": d["lo"] if d["lo"] is not None else _m.nan, "hi": d["hi"] if d["hi"] is not None else _m.nan,
+            full = {"cap": d["cap"] if d["cap"] is not None else float("nan"), "soc": d["soc"] if d["soc"] is not None else float("nan"),
+                    "lo": d["lo"] if d["lo"] is not None else float("nan"), "hi": d["hi"] if d["hi"] is not None else float("nan"),
                     "il": -1000.0, "el": 0.0, "eu": 0.0, "iu": 1000.0}
             await api.feed(10 + b, batdata.mk_battery(10 + b, full, datetime.now(timezone.utc)))
     dt = t0 + case["checkpoint"] - loop.time()
